@@ -268,6 +268,10 @@ theorem C10_grant (q : Nat) (h : Mqtt.Model.Topics.validQos q = true) : grant Ge
   · omega
   · rfl
 
+/-- the regenerated constants the session code uses are the specification's -/
+theorem C10_facts : Generated.maxQosAllowed = Spec.Broker.maxQos ∧ Model.Broker.cbBase = Spec.Broker.cbBase :=
+  ⟨rfl, rfl⟩
+
 /-- non-vacuity: the kept session of "A" holds ("w", 2) and ("a/b", 1): both
 subscribable, different paths; after the resume both entries are in the trie
 for connection 3. -/
